@@ -3245,7 +3245,7 @@ class Compiler:
                          "`if let` scrutinee on a field path of a mutable variable)")
         if t[0] in MAPLIKE and name in ("iter", "iter_mut", "keys", "into_iter", "drain", "retain", "extend", "values_mut", "into_values", "into_keys"):
             raise Reject(f"`.{name}(..)` on a map: iteration whose order could be observed is not in the vocabulary "
-                         "(accepted: `values().all(p)` / `.any(p)`, `for x in m.values_mut() {{ x.f = e; }}`)")
+                         "(accepted: `values().all(p)` / `.any(p)`, `for x in m.values_mut() { x.f = e; }`)")
         raise Reject(f"method call `.{name}(..)` on a value of type {ty_rust(t)} (not in the map vocabulary)")
 
     def arith(self, op, a, b, expect=None):
@@ -4219,7 +4219,8 @@ class Compiler:
         if kind == "assign":
             via = self.assign_via_lens(e, env, ind)
             if via is not None:
-                return self.cs(list(items[:i]) + via + list(items[i + 1:]), i, tail, env, k, ind, expect)
+                # (a block: the borrow ends with the statement, so a later statement may borrow the same place again)
+                return self.cs(list(items[:i]) + [("expr", ("block", via, None))] + list(items[i + 1:]), i, tail, env, k, ind, expect)
             line, env2 = self.c_assign(e, env, ind)
             return line + "\n" + rest(env2, ind)
         if kind in BLOCKLIKE:
